@@ -176,10 +176,10 @@ Definition exact_e : expr :=
 Definition exact_r : tenv := mk_tenv true [(0%N, (2 # 1, TInt)); (1%N, (1 # 2, TTime)); (6%N, (2 # 1, TInt))] [] [].
 Definition exact_s : N -> list ty := fun x => if N.eqb x 1 then [TTime] else [TInt].
 Lemma exact_guard_nonvacuous :
-  exact_guard exact_s exact_s exact_e = true /\ env_in exact_r exact_s exact_s /\
+  tex exact_r = true /\ exact_guard exact_s exact_s exact_e = true /\ env_in exact_r exact_s exact_s /\
   exists v, evalT exact_r exact_e = Ok (v, TTime) /\ v == 13 # 6.
 Proof.
-  split; [reflexivity|]. split.
+  split; [reflexivity|]. split; [reflexivity|]. split.
   - split.
     + intros x v t. unfold exact_r, exact_s. cbn.
       destruct (N.eqb x 0) eqn:E0; [apply N.eqb_eq in E0; subst; cbn; intros E; inversion E; left; reflexivity|].
@@ -224,3 +224,13 @@ Lemma mode_example :
   (exists v, evalT (num_r true) (Bin BMul (Const (1 # 2)) (Var 0%N)) = Ok (v, TTime) /\ v == 3 # 2) /\
   (exists v, evalT (num_r false) (Bin BMul (Const (1 # 2)) (Var 0%N)) = Ok (v, TFloat) /\ v == 3 # 2).
 Proof. repeat split; eexists; (split; [vm_compute; reflexivity | reflexivity]). Qed.
+
+(* the scope check_spec (SpecCheck.v, which does not see this file) builds for a typed unit case is the erasure of the
+   typed scope the model runs in: both judge the same formula in the same scope *)
+Lemma untyped_lookup : forall A (s : list (N * (A * ty))) x, lookup (untyped s) x = option_map fst (lookup s x).
+Proof. induction s as [|[y [a t]] s IH]; intros x; cbn; [reflexivity|]. destruct (N.eqb x y); [reflexivity | apply IH]. Qed.
+Lemma spec_scope_is_erasure : forall ex s v e,
+  eval (mk_env (untyped s) (untyped v) []) e = eval (erase (mk_tenv ex s v [])) e.
+Proof.
+  intros. apply eval_agree; intros; cbn; try apply untyped_lookup. reflexivity.
+Qed.
